@@ -908,6 +908,28 @@ func mayBeNilResult(ret *ssa.Return, v ssa.Value) bool {
 	}
 	if u, ok := v.(*ssa.UnOp); ok && u.Op == token.MUL {
 		if al, ok := u.X.(*ssa.Alloc); ok {
+			// a named error result returned on the edge where it was just found non-nil (`if _, err = f(); err != nil
+			// { return err }`, with a deferred function that wraps a non-nil error): not nil
+			for _, ec := range dominatingConds(ret.Block()) {
+				bo, isB := ec.Cond.(*ssa.BinOp)
+				if !isB || !isNilConst(bo.Y) || (bo.Op == token.NEQ) != ec.True || (bo.Op != token.NEQ && bo.Op != token.EQL) {
+					continue
+				}
+				if ld, isLd := bo.X.(*ssa.UnOp); isLd && ld.Op == token.MUL && ld.X == ssa.Value(al) {
+					// nothing between the test and the return assigns the cell another value than itself
+					clean := true
+					for _, ins := range ret.Block().Instrs {
+						if st, isSt := ins.(*ssa.Store); isSt && st.Addr == ssa.Value(al) {
+							if l2, isL2 := st.Val.(*ssa.UnOp); !isL2 || l2.Op != token.MUL || l2.X != ssa.Value(al) {
+								clean = false
+							}
+						}
+					}
+					if clean && len(ret.Block().Preds) == 1 && ret.Block().Preds[0] == ec.If.Block() {
+						return false
+					}
+				}
+			}
 			stores, zero := reachingStores(u, al, -1)
 			if zero {
 				return true
